@@ -292,6 +292,25 @@ func main() {
 		run.Sample(map[string]any{"prim": p.name, "values_enumerated": len(vals), "first": fmt.Sprintf("%#x", vals[0]), "last": fmt.Sprintf("%#x", vals[len(vals)-1])})
 	}
 
+	// 2b: slice <-> stream agreement on every WIRE byte of the one-byte types (a bool has 256 encodings, not 2)
+	for _, p := range prims {
+		if p.w != 1 {
+			continue
+		}
+		for b := 0; b < 256; b++ {
+			states++
+			wire := []byte{byte(b)}
+			gb := p.readBytes(wire[:1:1])
+			er := iohelp.NewErrorReader(bytes.NewReader(wire))
+			gs := p.readStream(er)
+			trans += 2
+			if gb != gs || er.Err != nil {
+				run.Report("C20|agreement|wire-byte|"+p.name, fmt.Sprintf("wire byte %#02x: Read%sBytes = %#x, Read%s (stream) = %#x (err %v)", b, p.name, gb, p.name, gs, er.Err),
+					map[string]any{"prim": p.name, "wire_byte": b})
+			}
+		}
+	}
+
 	// 3: buffer lengths around the width: a too-short slice must panic (bounds probe), never be read/written silently.
 	for _, p := range prims {
 		for n := 0; n <= p.w+2; n++ {
